@@ -277,8 +277,8 @@ func runC18(c *Ctx, r *Run) {
 	}
 	var callers []*caller
 	for _, f := range fns {
-		if f.Signature.Recv() == nil || f.Parent() != nil {
-			continue
+		if f.Parent() != nil {
+			continue // (a method of the pool or a plain function its body was moved into)
 		}
 		var cl *caller
 		allInstrs(f, func(in ssa.Instruction) {
@@ -347,12 +347,26 @@ func runC18(c *Ctx, r *Run) {
 			if len(ret.Results) != 1 || ret.Results[0] != ssa.Value(cl.results) {
 				continue
 			}
-			// nearest dominating If
+			// nearest dominating If that is a wait condition (a post-condition check between the wait loop and the return -
+			// a scan of the filled slots, a re-read of the counter - decides nothing about waiting and is stepped over)
 			var iff *ssa.If
 			for b := ret.Block().Idom(); b != nil; b = b.Idom() {
 				if x, ok := b.Instrs[len(b.Instrs)-1].(*ssa.If); ok {
-					iff = x
-					break
+					if iff == nil {
+						iff = x
+					}
+					isWait := blockInLoop(b) && dependsOn(x.Cond, func(v ssa.Value) bool { in, ok := v.(ssa.Instruction); return ok && isAtomicLoad(in) })
+					if bo, isB := x.Cond.(*ssa.BinOp); isB && !isWait {
+						for _, side := range []ssa.Value{bo.X, bo.Y} {
+							if ph, isPhi := side.(*ssa.Phi); isPhi && m.phiCountsRecvs(ph) {
+								isWait = true
+							}
+						}
+					}
+					if isWait {
+						iff = x
+						break
+					}
 				}
 			}
 			if iff == nil {
